@@ -140,72 +140,53 @@ def run(chk):
         T = flow.Terms(p, ga)
         # local holding the credential that is stored
         stored_whole = flow.simplify_term(T.operand(ut["args"][1], ub, "t"))
-        # find the Some-edge switch on <cred>.counter that guards the update
-        guard = None
-        for sb in range(len(ga.blocks)):
-            t = ga.term(sb)
-            if t and t["k"] == "switch" and not ga.blocks[sb]["cleanup"]:
-                pl = flow.op_place(t["op"])
-                if not pl:
-                    continue
-                d = flow.DefUse(ga).single_def(pl[0])
-                if d and d[0] == "assign" and d[4]["k"] == "discr":
-                    l, pth = flow.norm_place(d[4]["place"])
-                    if pth and pth[-1] == "counter":
-                        guard = (sb, l, pth)
-        if chk.require("R5 no counter, no rewrite", "R5|guard", guard, where(ga), "no branch on the stored counter's presence found"):
-            sb, cl, cpath = guard
-            e = flow.switch_edges(ga, sb)
-            some_t, none_t = e.get("1"), e.get("otherwise")
+        # the presence test on the stored counter that guards the update (any idiom)
+        is_counter = lambda x: isinstance(x, tuple) and len(x) == 3 and x[0] == "field" and x[2] == "counter"
+        some_edges, none_edges = flow.success_edges(p, ga, is_counter, T)
+        if chk.require("R5 no counter, no rewrite", "R5|guard", bool(some_edges) and bool(none_edges), where(ga), "no branch on the stored counter's presence found"):
             # R5: update only through the Some edge
-            ok5 = flow.cut_by_edges(ga, 0, [ub], [(sb, some_t)])
+            ok5 = flow.cut_by_edges(ga, 0, [ub], some_edges)
             chk.ob("R5 no counter, no rewrite", "R5|update-guarded-by-Some", ok5, where(ga, ub),
-                   "update_credential is %sreachable when the Some edge of `%s` (bb%d) is removed" % ("un" if ok5 else "", "credential.counter", sb))
-            # stored counter term at the update call
-            stored_counter = flow.simplify_term(T.place(cl, cpath, ub, "t"))
-            # reported term on paths through the Some edge: drop the None edge
-            T2 = flow.Terms(p, ga, flow.ReachingDefs(ga, removed_edges=[(sb, none_t)]))
-            reported_some = flow.simplify_term(T2.operand(nt["args"][1], nb, "t"))
-            chk.ob("R3 reported = stored", "R3|some-path", reported_some == stored_counter, where(ga, nb),
-                   "reported (paths with a counter) = %s ; stored = %s" % (flow.term_str(reported_some), flow.term_str(stored_counter)))
+                   "update_credential is %sreachable when the Some edge(s) of the test on the stored counter %s are removed" % ("un" if ok5 else "", some_edges))
+            sw = N.norm(stored_whole)
+            okw = sw[0] == "with" and len(sw[2]) == 1 and all(pth[-1:] == ("counter",) for pth, v in sw[2])
+            chk.ob("R3 reported = stored", "R3|stored-is-credential-with-counter", okw, where(ga, ub),
+                   "value given to update_credential = %s" % flow.term_str(sw)[:300])
+            base = sw[1] if sw[0] == "with" else sw
+            stored_counter = [v for pth, v in sw[2]][0] if okw else N.norm(("field", sw, "counter"))
+            # the reported counter, as a selection on that presence test
+            reported = N.norm(T.operand(nt["args"][1], nb, "t"))
+            sel = {}
+            if reported[0] == "gamma":
+                for l, v in reported[2]:
+                    r = flow.presence_test(reported[1], l)
+                    if r is not None and is_counter(r[0]):
+                        sel[r[1]] = v
+            reported_some, reported_none = sel.get(True), sel.get(False)
+            chk.ob("R3 reported = stored", "R3|some-path", reported_some is not None and reported_some == stored_counter, where(ga, nb),
+                   "reported (paths with a counter) = %s ; stored = %s" % (flow.term_str(reported_some) if reported_some else flow.term_str(reported)[:200], flow.term_str(stored_counter)))
             # the incremented counter is always Some(..): an Option-returning increment (checked_add) stored as is turns
             # the counter into None at u32::MAX, which is then reported as 0 (a smaller value) and rewrites the record
             is_some = stored_counter[0] == "agg" and stored_counter[2] == "Some"
             chk.ob("R2 checked arithmetic", "R2|Authenticator::get_assertion|incremented-counter-is-Some", is_some, where(ga, ub),
                    "counter written back = %s%s" % (flow.term_str(stored_counter), "" if is_some else " — not a `Some(..)`: at u32::MAX the stored counter is removed and the assertion reports 0"))
-            # the stored passkey is the credential with exactly that counter update
-            okw = stored_whole[0] == "with" and any(pth == cpath[-1:] or pth == cpath for pth, v in stored_whole[2]) and len(stored_whole[2]) == 1
-            chk.ob("R3 reported = stored", "R3|stored-is-credential-with-counter", okw, where(ga, ub),
-                   "value given to update_credential = %s" % flow.term_str(stored_whole))
             # on the None path the reported counter is the stored (absent) one
-            T3 = flow.Terms(p, ga, flow.ReachingDefs(ga, removed_edges=[(sb, some_t)]))
-            reported_none = flow.simplify_term(T3.operand(nt["args"][1], nb, "t"))
-            base = stored_whole[1] if stored_whole[0] == "with" else stored_whole
-            chk.ob("R5 no counter, no rewrite", "R5|none-path-reports-stored", reported_none == ("field", base, "counter"), where(ga, nb),
-                   "reported (paths without counter) = %s" % flow.term_str(reported_none))
+            chk.ob("R5 no counter, no rewrite", "R5|none-path-reports-stored", reported_none is not None and reported_none in (("field", base, "counter"), normal.NONE), where(ga, nb),
+                   "reported (paths without counter) = %s" % (flow.term_str(reported_none) if reported_none else "?"))
     # R6: the reported counter equals what the store holds only if the store accepted it
     from .c07 import try_of_await
     aws = flow.awaits(ga)
     upa = [a for a in aws if a.call is not None and names.call_is(a.call, "CredentialStore::update_credential")]
     oks = [s["bb"] for s in flow.outcome_sites(ga) if s["kind"] == "Ok" and s["path"] == ()]
     if upa and oks and len(ups) == 1:
-        tr = try_of_await(ga, upa[0], flow.DefUse(ga))
-        if tr is None:
+        from .common import accepted_counter_cut
+        ok, upd_ok, no_counter = accepted_counter_cut(p, ga)
+        if not upd_ok:
             chk.ob("R6 store accepted the reported value", "R6|get_assertion|update-result-propagated", False, where(ga, upa[0].call_bb),
-                   "update_credential's result does not reach a `?`: an assertion can report counter n+1 while the store still holds n (store failure), and the next assertion reports n+1 again")
+                   "update_credential's result is never tested: an assertion can report counter n+1 while the store still holds n (store failure), and the next assertion reports n+1 again")
         else:
-            cut_edges = [(tr["switch_bb"], tr["continue_bb"])]
-            # assertions of credentials without a counter legitimately skip the update
-            for sb in range(len(ga.blocks)):
-                t = ga.term(sb)
-                if t and t["k"] == "switch":
-                    pl = flow.op_place(t["op"])
-                    d = flow.DefUse(ga).single_def(pl[0]) if pl and pl[1] == () else None
-                    if d and d[0] == "assign" and d[4]["k"] == "discr" and flow.norm_place(d[4]["place"])[1][-1:] == ("counter",):
-                        cut_edges.append((sb, flow.switch_edges(ga, sb).get("otherwise")))
-            ok = flow.cut_by_edges(ga, 0, oks, cut_edges)
             chk.ob("R6 store accepted the reported value", "R6|get_assertion|update-result-propagated", ok, where(ga, upa[0].call_bb),
-                   "every Ok return passes the success edge of update_credential's `?` (or the no-counter edge): %s" % ok)
+                   "every Ok return passes the success edge of the test on update_credential's result (or the no-counter edge): %s" % ok)
     # encoding of None as 0
     tv = p.method(adt_ident(p, "AuthenticatorData"), "to_vec")
     if chk.require("R5 no counter, no rewrite", "R5|to_vec", tv, "AuthenticatorData::to_vec", "AuthenticatorData::to_vec not found"):
